@@ -83,6 +83,7 @@ class ScopeLifeDriver:
                  d=tuple((d.n_enter, d.n_exit, "unset" if d.exit_arg is None else canon(d.exit_arg)) for d in self.disps),
                  ch=tuple(ch))
         bad = [str(c.get("message")) for c in w.loop.exceptions if "never retrieved" not in str(c.get("message"))]
+        bad += w.disp_errors
         if bad:
             o["loop_errors"] = bad
         return o
